@@ -300,7 +300,7 @@ def p_boundaries(prop, c):
 
 def check_C04(tier, seed, replay):
     res, runs, cases = generic(
-        "C04", ["uni", "randuni"], tier, seed, replay, [p_boundaries, props.p_conforms],
+        "C04", ["uni", "randuni", "term"], tier, seed, replay, [p_boundaries, props.p_conforms],
         "literals / ranges / ci literals / classes / char / extern over {a, A, e-acute (C3 A9), U+9053 (E9 81 93), "
         "U+1F600} and code-point range end points x all inputs up to the bound plus seeded random Unicode strings; "
         "non-trivial = input containing a multi-byte character",
@@ -1055,7 +1055,7 @@ def hist_line(h):
     out = []
     for st in h:
         if st["a"] == "init":
-            out.append("i:" + st["g"])
+            out.append("i:" + st["g"] + ("" if st.get("d", "absent") == "absent" else ":" + st["d"]))
         elif st["a"] == "edit":
             out.append("e:" + st["g"])
         elif st["a"] == "prefix":
@@ -1115,13 +1115,16 @@ def check_C18(tier, seed, replay):
         keep.append((fmt, hl))
     hists = keep if not replay else hists
     # "+wide": the same histories with the prefixes spelled in multi-byte characters
-    modes = ["file", "dest", "dir", "file+wide", "dirlink"]
+    # "+crlf": the two valid grammars differ in nothing but their line endings, one of which lies inside a literal
+    modes = ["file", "dest", "dir", "file+wide", "dirlink", "file+crlf"]
     d = vlib.famdir("buildscript", tier)
     cf = os.path.join(d, "histories.tsv")
     lines = []
     for fmt, hl in hists:
         for m in (modes if not replay else [json.load(open(replay)).get("mode", "file")]):
             if m == "file+wide" and "p:" not in hl:
+                continue
+            if m == "file+crlf" and ("e:g" not in hl or hl.count("r") < 2 or "p:" in hl):
                 continue
             if m == "dirlink" and ("p:" in hl or hl.count("r") < 2):
                 continue      # (the symbolic-link variant: histories with two or more runs, default prefix)
